@@ -1,4 +1,5 @@
 import SecsModel.Props.C18
+import SecsModel.Props.C18b
 #print axioms SecsModel.Props.C18.rejected_noop
 #print axioms SecsModel.Props.C18.moves_to_destination
 #print axioms SecsModel.Props.C18.active_is_ancestors_forest
@@ -13,3 +14,10 @@ import SecsModel.Props.C18
 #print axioms SecsModel.Props.C18.witness_race
 #print axioms SecsModel.Props.C18.serialised_generic
 #print axioms SecsModel.Props.C18.serialised
+#print axioms SecsModel.Props.C18b.conn_bridge
+#print axioms SecsModel.Props.C18b.conn_bridge_wired
+#print axioms SecsModel.Props.C18b.conn_smCall_bridge
+#print axioms SecsModel.Props.C18b.comm_bridge
+#print axioms SecsModel.Props.C18b.comm_bridge_wired
+#print axioms SecsModel.Props.C18b.pair_connOk_is_table
+#print axioms SecsModel.Props.C18b.pair_commOk_in_table
